@@ -31,8 +31,9 @@ type judgeIn struct {
 	state       string
 	extra       []Param
 	noIssuerCtx bool
-	fp          string // infix of the fingerprints ("" | "par:")
-	note        string // appended to messages (the schedule of a concurrent step)
+	fired       map[string]string // injected storage failures the request ran into: method -> fault kind
+	fp          string            // infix of the fingerprints ("" | "par:")
+	note        string            // appended to messages (the schedule of a concurrent step)
 }
 
 type verdict struct {
@@ -112,6 +113,20 @@ func expect(in judgeIn) *verdict {
 			ex.why += "+unknown-parameter"
 		}
 	}
+	// the storage failed while the request was served: refusing the request is always fine then (no completeness);
+	// everything the statement forbids stays forbidden, and an answer that is a redirect all the same is judged like any
+	// other (target; the session terminated is that of the hint's subject and client). A client whose registration could
+	// not be read (the call failed without a result) vouches for no URI: only the default is left.
+	if len(in.fired) > 0 {
+		if ex.mustAccept {
+			ex.mustAccept = false
+			ex.why += "+storage-fault"
+		}
+		if kind, ok := in.fired["GetClientByClientID"]; ok && kind != "partial" && !ex.mustReject && v.clientKnownToModel {
+			ex.allowed = []target{def}
+			ex.why = "client-lookup-failed+" + ex.why
+		}
+	}
 	if hf.present {
 		v.wantUser = hf.sub
 	}
@@ -183,7 +198,7 @@ func observe(res *vkit.Result, in judgeIn, v *verdict, r *vkit.Resp, term []vkit
 				res.Fail("C18:terminated-wrong-user", "session terminated for user %q, the hint's subject is %q (client %q; request parameters beyond the statement's: %v)", e.Args[0], v.wantUser, e.Args[1], in.extra)
 			}
 			if v.clientKnownToModel && e.Args[1] != v.provenID {
-				res.Fail("C18:terminated-wrong-client", "session terminated for client %q, the proven client is %q (user %q; request parameters beyond the statement's: %v)", e.Args[1], v.provenID, e.Args[0], in.extra)
+				res.Fail("C18:terminated-wrong-client", "session terminated for client %q, the proven client is %q (user %q; request parameters beyond the statement's: %v; storage calls that failed: %v; answered %d -> %q)", e.Args[1], v.provenID, e.Args[0], in.extra, in.fired, r.Status, loc)
 			}
 			if e.Method == "TerminateSessionFromRequest" && len(e.Args) >= 3 && e.Args[2] != loc {
 				// the storage echoes the URI it was handed; the response must carry it
@@ -197,8 +212,17 @@ func observe(res *vkit.Result, in judgeIn, v *verdict, r *vkit.Resp, term []vkit
 		if ex.mustAccept {
 			res.Fail(fp+"rejected:"+ex.why+":"+in.hf.status+"-"+strings.SplitN(in.hf.why, "+", 2)[0], "request must be accepted (%s; hint %s) but was rejected: %s%s", ex.why, in.hintLabel, r.Describe(), in.note)
 		}
-		if alone && len(term) != 0 {
-			res.Fail("C18:terminated-on-reject", "rejected request (status %d) still terminated a session: %+v", r.Status, term)
+		if alone {
+			// a termination call that was made and failed (injected fault) explains itself
+			var unexplained []vkit.JEntry
+			for _, e := range term {
+				if !e.Fault {
+					unexplained = append(unexplained, e)
+				}
+			}
+			if len(unexplained) != 0 {
+				res.Fail("C18:terminated-on-reject", "rejected request (status %d) still terminated a session: %+v", r.Status, unexplained)
+			}
 		}
 	default:
 		v.outcome = "other"
